@@ -264,6 +264,13 @@ theorem runItem_spec : ∀ (i : Item) (s : St),
     · simpa [enter] using ih.2.1
     · simpa [enter] using ih.2.2.1
     · simpa [enter] using ih.2.2.2
+  | .subObj ref rem isDir items, s => by
+    have ih := runItems_spec items (enter s (objDir ref rem isDir))
+    simp only [runItem, specItem, noFailItem, stableItem, leave]
+    refine ⟨trivial, ?_, ?_, ?_⟩
+    · simpa [enter] using ih.2.1
+    · simpa [enter] using ih.2.2.1
+    · simpa [enter] using ih.2.2.2
 theorem runItems_spec : ∀ (l : List Item) (s : St),
     (runItems l s).st = s ∧ (runItems l s).trace <+: specItems s.cwd l ∧
     ((runItems l s).ok = true → (runItems l s).trace = specItems s.cwd l) ∧
